@@ -182,3 +182,41 @@ def check(prop, tier, seed, spec):
         "secrets are sampled from an adversarial pool, not enumerated; x86_64 only",
         "TLC's part is a trivial trace-equality monitor per class; the substance is the instrumentation (DESIGN section 7 C01)"], time.time() - t0, sum(len(v) for v in violations.values()))
     return 1 if violations else 0
+
+
+def selftest(prop, spec, k=60, seed=7):
+    """binding self-test: alter the trace digest of K recorded runs (never the first run of a class) and require TLC's
+    monitor to reject exactly those runs, and the machine-level comparison to tell two different regions apart"""
+    import random
+    wdir = os.path.join(vcheck.WORK, prop + "_selftest")
+    shutil.rmtree(wdir, ignore_errors=True)
+    os.makedirs(wdir)
+    vcheck.ensure_classes()
+    vcheck.run(["cargo", "build", "--offline", "--release"], cwd=LEAK, env=dict(os.environ, CARGO_NET_OFFLINE="true"), timeout=3000)
+    trace = os.path.join(wdir, "trace.ndjson")
+    vcheck.run([BIN, "--out", trace, "--seed", str(seed), "--secrets", "8"], timeout=3000)
+    lines = open(trace).read().splitlines()
+    rnd = random.Random(seed)
+    cand = [i for i, l in enumerate(lines) if '"dst":1' in l]
+    picks = sorted(rnd.sample(cand, k))
+    for i in picks:
+        e = json.loads(lines[i])
+        e["dig"][rnd.randrange(len(e["dig"]))] ^= 1 << rnd.randrange(8)
+        lines[i] = json.dumps(e, separators=(",", ":"))
+    ctrace = os.path.join(wdir, "corrupted.ndjson")
+    open(ctrace, "w").write("\n".join(lines) + "\n")
+    base, _ = vcheck.validate_trace(trace, wdir, "base", ["C01"])
+    base_rej = set(r["base"] + i for r in base for i in r["rejects"])
+    res, _ = vcheck.validate_trace(ctrace, wdir, "cor", ["C01"])
+    rej = set(r["base"] + i for r in res for i in r["rejects"])
+    want = set(i + 1 for i in picks)
+    missed = sorted(want - rej)
+    extra = sorted(rej - want - base_rej)
+    # machine level: two different operations' regions must differ, the same secret twice must not
+    markers = lackey.build_plain()
+    same = lackey.machine_traces("uint.wrapping_add#0", [0, 1, 2], seed, 8, markers)
+    diff = lackey.machine_traces("uint.neg_mod#0", [0, 1], seed, 8, markers)       # secret 0 is zero: the known branch
+    ml_ok = same[0][0] == same[1][0] == same[2][0] and diff[0][0] != diff[1][0] and same[0][1] > 0
+    print("[selftest %s] %d runs, %d digests altered, %d rejected by TLC, %d missed, %d unexpected; machine level: equal regions equal, different regions different: %s"
+          % (prop, len(lines), len(picks), len(rej & want), len(missed), len(extra), ml_ok))
+    return 0 if not missed and not extra and ml_ok else 1
